@@ -33,6 +33,7 @@ type Fixture struct {
 	Models [][2]string // name, expr
 	Body   string
 	Pkg    string // directory relative to repo ("." default)
+	Search bool   // the test enumerates a finite set of real inputs itself: no model values needed
 }
 
 func loadFixtures(verif string) []*Fixture {
@@ -54,6 +55,9 @@ func loadFixtures(verif string) []*Fixture {
 					}
 					if strings.HasPrefix(kv, "pkg=") {
 						fx.Pkg = strings.TrimPrefix(kv, "pkg=")
+					}
+					if kv == "search=1" {
+						fx.Search = true
 					}
 				}
 			case strings.HasPrefix(l, "//model:"):
@@ -191,10 +195,18 @@ func replayObligation(repo, verif, dir, prop string, o *Obligation, why string) 
 	var b strings.Builder
 	fmt.Fprintf(&b, "property: %s\nobligation: %s\nkind: %s\nfunction: %s\nposition: %s\nclause: %s\nresult: %s\nbackend: %s\n\n%s\n\n", prop, o.Name, o.Kind, o.Fn, o.Pos, o.Src, o.Status, o.Backend, why)
 	reproduced := false
-	if o.Status == "sat" && o.fr != nil {
-		if replayFixtures == nil {
-			replayFixtures = loadFixtures(verif)
-		}
+	if replayFixtures == nil {
+		replayFixtures = loadFixtures(verif)
+	}
+	if fx := findFixture(replayFixtures, o.Fn); fx != nil && fx.Search && o.Status != "unbound" {
+		// an input-search fixture: the failed obligation gives no usable model (uninterpreted library facts,
+		// quantifiers), so the fixture tries a fixed list of real inputs against the clause's meaning
+		out, verdict := runReplayTest(repo, fx.Pkg, fx.Body)
+		cmd := fmt.Sprintf("cd %s/%s && go test -overlay <ov.json mapping zz_verif_replay_test.go> -vet=off -count=1 -timeout 60s -run TestVerifReplay .", repo, fx.Pkg)
+		fmt.Fprintf(&b, "input search (no solver model needed; the test enumerates real inputs):\nreplay command: %s\nreplay verdict: %s\n", cmd, verdict)
+		fmt.Fprintf(&b, "---- replay test (package %s) ----\n//REPLAY-BEGIN pkg=%s\n%s\n//REPLAY-END\n---- replay output ----\n%s\n", fx.Pkg, fx.Pkg, fx.Body, truncate(out, 4000))
+		reproduced = verdict == "violated"
+	} else if o.Status == "sat" && o.fr != nil {
 		if fx := findFixture(replayFixtures, o.Fn); fx != nil {
 			env := o.fr.envAt(o.fr.entry, o.fr.entry.heap, "replay model expression")
 			var terms []string
